@@ -146,7 +146,7 @@ def replayStep (inp obs : Json) (strict : Bool) : ReplayOut × Bool × String :=
   let entry := jstr inp "entry"
   let cfg := cfgOf (jstr inp "kind")
   let req : Request := { method := jstr inp "method", header := jstr inp "header", body := bodyOf (jget inp "body"), box := jstr inp "box" }
-  let evs := (parseTrace (jget obs "trace")).toArray
+  let evs := ((parseTrace (jget obs "trace")).filter fun ev => !ev.name.startsWith "app:").toArray
   let st : RSt := { evs := evs, used := Array.replicate evs.size false, strict := strict }
   let out := match entry with
     | "postInbox" => replay handledJson (postInboxScheme facts cfg req) st
